@@ -94,6 +94,32 @@ WHY = [
 ]
 
 
+# A reworded message must not look like a different decision: when no pattern matches, the check is identified by the
+# jade function that raised (innermost jade frame of the traceback).  `check_submission_groups` raises for several
+# reasons that only the text tells apart: "groups:?" stands for any of them (see ConfigSuite.agree).
+WHY_BY_FUNCTION = {
+    ("job_configuration.py", "check_job_dependencies"): "dependencies",
+    ("job_configuration.py", "check_job_estimated_run_minutes"): "estimateMissing",
+    ("job_configuration.py", "check_job_runtimes"): "runtime",
+    ("job_configuration.py", "check_submission_groups"): "groups:?",
+    ("generic_command_configuration.py", "add_job"): "emptyCommand",
+    ("job_container_by_name.py", "add_job"): "dupName",
+}
+GROUP_WHYS = ("groupTwice", "hpcType", "jobGroup")
+
+
+def raising_function(exc):
+    import jade
+    pkg = os.path.dirname(os.path.abspath(jade.__file__)) + os.sep
+    tb, last = exc.__traceback__, None
+    while tb is not None:
+        code = tb.tb_frame.f_code
+        if os.path.abspath(code.co_filename).startswith(pkg):
+            last = (os.path.basename(code.co_filename), code.co_name)
+        tb = tb.tb_next
+    return last
+
+
 def classify(exc):
     if type(exc).__name__ != "InvalidConfiguration":
         return None
@@ -102,7 +128,20 @@ def classify(exc):
         m = re.search(rx, msg)
         if m:
             return name.format(*m.groups())
+    by_fn = WHY_BY_FUNCTION.get(raising_function(exc))
+    if by_fn:
+        return by_fn
     return "?:" + msg[:60]
+
+
+def loosen(model, impl):
+    """the model's output with every `why` the implementation could only attribute to check_submission_groups as a whole
+    ("groups:?": its message was reworded) replaced by that same token"""
+    if isinstance(model, dict) and isinstance(impl, dict):
+        return {k: loosen(v, impl.get(k)) for k, v in model.items()}
+    if impl == "groups:?" and isinstance(model, str) and (model in GROUP_WHYS or model.startswith("mustBeSame:")):
+        return impl
+    return model
 
 
 def rej(stage, exc):
@@ -752,6 +791,9 @@ class ConfigSuite(Suite):
                     eff.append("sbatch-after-error")
                 out[entry] = {"result": result, "why": why, "effects": eff}
         return out
+
+    def agree(self, model, result):
+        return canon(loosen(model, result)) == canon(self.view(result))
 
     # ---------------------------------------------------------------- direct oracle
     def oracle(self, case, result):
